@@ -39,6 +39,7 @@ type Elem struct {
 	Tagged bool
 	Edge   int  `json:",omitempty"` // nodes: exactly on the border of the box: 1 top, 2 right, 3 corner, 4 bottom, 5 left
 	NoTag  bool `json:",omitempty"` // the element carries no tag at all
+	AX     bool `json:",omitempty"` // the element carries the two tags a=x and c=d (Tagged: a=b and c=x)
 }
 
 // edgeCoord is the (lat, lon) of a node on the border of the [-1,1]^2 box.
@@ -72,6 +73,12 @@ func (d Doc) XML() string {
 	var b strings.Builder
 	b.WriteString("<osm>\n")
 	tag := func(e Elem) string {
+		if e.AX && e.Tagged {
+			return `<tag k="a" v="b"/><tag k="c" v="x"/>`
+		}
+		if e.AX {
+			return `<tag k="a" v="x"/><tag k="c" v="d"/>`
+		}
 		if e.Tagged {
 			return `<tag k="a" v="b"/>`
 		}
@@ -158,9 +165,10 @@ const (
 	keepTags
 	keepBounds
 	keepOtherTags // selects exactly the elements that are not Tagged (second Filter of a history)
+	keepTwoKeys   // two wanted keys: a=b or c=d
 )
 
-var keepNames = []string{"KeepAll", "KeepTags{a:[b]}", "KeepBounds([-1,1]^2)", "KeepTags{c:[d]}"}
+var keepNames = []string{"KeepAll", "KeepTags{a:[b]}", "KeepBounds([-1,1]^2)", "KeepTags{c:[d]}", "KeepTags{a:[b],c:[d]}"}
 
 func keepFunc(k int) gosm.KeepFunc {
 	switch k {
@@ -170,6 +178,8 @@ func keepFunc(k int) gosm.KeepFunc {
 		return gosm.KeepTags(map[string][]string{"a": {"b"}})
 	case keepOtherTags:
 		return gosm.KeepTags(map[string][]string{"c": {"d"}})
+	case keepTwoKeys:
+		return gosm.KeepTags(map[string][]string{"a": {"b"}, "c": {"d"}})
 	}
 	return gosm.KeepBounds(&geom.Bounds{Min: geom.Point{X: -1, Y: -1}, Max: geom.Point{X: 1, Y: 1}})
 }
@@ -186,6 +196,8 @@ func lfp(d Doc, keep int) map[string]bool {
 			return e.Tagged
 		case keepOtherTags:
 			return !e.Tagged && !e.NoTag
+		case keepTwoKeys:
+			return !e.NoTag // a=b (Tagged), c=d (the default tag), or both keys with one value matching (AX)
 		}
 		if e.Kind == 'n' {
 			return e.Inside || e.Edge > 0 // the box is closed: a node on its border is selected
@@ -478,6 +490,61 @@ func scenarios(tier string) []Scenario {
 			}
 		}
 	}
+	// long dependency chains (one link discovered per pass): a road of N
+	// end-to-end ways of which only the first node is inside the box, in document
+	// order and with the ways listed backwards; relations nested N deep, listed
+	// children first, of which only the outermost is tagged (and the reverse
+	// listing); sequential and as PBF
+	for _, N := range []int{45, 70} {
+		var road, roadBack Doc
+		for i := 1; i <= N+1; i++ {
+			road = append(road, n(int64(i), i == 1))
+		}
+		roadBack = append(roadBack, road...)
+		for i := 1; i <= N; i++ {
+			road = append(road, w(int64(1000+i), int64(i), int64(i+1)))
+			roadBack = append(roadBack, w(int64(1000+N+1-i), int64(N+1-i), int64(N+2-i)))
+		}
+		nest := Doc{n(1, false), r(1, Ref{'n', 1})}
+		for i := 2; i <= N; i++ {
+			nest = append(nest, r(int64(i), Ref{'r', int64(i - 1)}))
+		}
+		nest[len(nest)-1].Tagged = true
+		var nestBack Doc
+		for i := len(nest) - 1; i >= 0; i-- {
+			nestBack = append(nestBack, nest[i])
+		}
+		for _, kd := range []string{"extract", "pbf"} {
+			out = append(out, Scenario{kd, road, keepBounds, 1, 0, 1, false}, Scenario{kd, roadBack, keepBounds, 1, 0, 1, false},
+				Scenario{kd, nest, keepTags, 1, 0, 1, false}, Scenario{kd, nestBack, keepTags, 1, 0, 1, false})
+		}
+		out = append(out, Scenario{"extract", road, keepBounds, 2, 0, 1, true}, Scenario{"extract", nest, keepTags, 2, 0, 1, true})
+	}
+	// two wanted keys, and elements that carry both keys with only one value
+	// matching (a=x c=d, or a=b c=x), next to untagged ones
+	{
+		bare := func(e Elem) Elem { e.NoTag = true; return e }
+		for _, d := range []Doc{
+			{n(1, false), bare(n(2, false))},
+			{bare(n(1, false)), w(1, 1, 2), bare(n(2, false))},
+			{bare(n(1, false)), bare(w(1, 1, 2)), bare(n(2, false)), r(1, Ref{'w', 1})},
+			{bare(n(1, false)), bare(w(1, 1, 2)), bare(n(2, false)), bare(r(1, Ref{'w', 1})), n(3, false)},
+		} {
+			for t := range d {
+				if d[t].NoTag {
+					continue
+				}
+				for _, tg := range []bool{false, true} {
+					q := append(Doc{}, d...)
+					q[t].AX, q[t].Tagged = true, tg
+					out = append(out, Scenario{"extract", q, keepTwoKeys, 1, seqBound, 1, false}, Scenario{"filter", q, keepTwoKeys, 1, 1, 1, false})
+					if tg {
+						out = append(out, Scenario{"extract", q, keepTags, 1, seqBound, 1, false})
+					}
+				}
+			}
+		}
+	}
 	// PBF container: every document of the sequential tier (one element order;
 	// all orders for <= 3 elements) and the dangling documents, free-running
 	for _, d := range subsets {
@@ -737,7 +804,11 @@ func runScenario(idx int, s Scenario, shard int) scenResult {
 	if dl, err := strconv.ParseInt(os.Getenv("VERIF_DEADLINE"), 10, 64); err == nil && dl > 0 {
 		stop = func() bool { return time.Now().Unix() > dl }
 	}
-	cfg := sched.Config{Bound: s.Bound, Delay: s.Delay, EnvChoices: s.Kind == "filter", Shard: shard, NShards: s.Split, Stop: stop,
+	horizon := 0 // the scheduler's default (100 000 steps)
+	if len(s.Doc) > 40 {
+		horizon = 20000000 // long chains: tens of passes over a hundred elements
+	}
+	cfg := sched.Config{Bound: s.Bound, Delay: s.Delay, EnvChoices: s.Kind == "filter", Shard: shard, NShards: s.Split, Stop: stop, Horizon: horizon,
 		Body: func() sched.Result {
 			var o, v string
 			if s.Kind == "filter" {
